@@ -102,6 +102,10 @@ func runC16(c *Ctx) {
 		bt, ok := fn.Params[1].Type().Underlying().(*types.Basic)
 		return ok && bt.Kind() == types.UnsafePointer
 	})
+	if doRealWrite == nil {
+		// inlined into its only caller: doWrite routes the bytes itself
+		doRealWrite = m.lookupFunc("kfmt", "doWrite")
+	}
 	fprintf := m.lookupFunc("kfmt", "Fprintf")
 	sink := m.lookupGlobal("kfmt", "outputSink")
 	early := m.lookupGlobal("kfmt", "earlyPrintBuffer")
